@@ -3,9 +3,9 @@ import PydraModel.Rules.Lemmas2
 open Lean PydraModel PydraModel.Rules PydraModel.DriverUtil
 
 /-
-{"op":"rules","fields":[{"name":..,"kind":"optstr|bool|optbool|str|strd|optfile","exempt":false?,
+{"op":"rules","fields":[{"name":..,"kind":"optstr|bool|optbool|str|strd|ro|outopt","exempt":false?,
                           "requires":[[[name, null | [allowed…]],…],…]}],
- "xor":[[name|null,…],…], "assignments":[{name: null|true|false|"str"|{"unset":true}, …}, …]}
+ "xor":[[name|null,…],…], "assignments":[{name: null|true|false|"str"|{"unset":true}|{"lazy":true}, …}, …]}
  -> {"wf":…, "closed":…, "results":[{"viol":[…], "spec":bool, "uniform":bool}, …]}
 -/
 
@@ -13,9 +13,11 @@ def valOfJson : Json → Except String Val
   | .null => pure .none
   | .bool b => pure (.bool b)
   | .str s => pure (.str s)
-  | j@(.obj _) => do
-      let u ← j.getObjValAs? Bool "unset"
-      if u then pure .unset else throw "bad value object"
+  | j@(.obj _) =>
+      match j.getObjValAs? Bool "unset", j.getObjValAs? Bool "lazy" with
+      | .ok true, _ => pure .unset
+      | _, .ok true => pure .lazy
+      | _, _ => throw "bad value object"
   | _ => throw "bad value"
 
 def reqOfJson (j : Json) : Except String Req := do
@@ -32,12 +34,13 @@ def fieldOfJson (j : Json) : Except String Field := do
   let kind ← getStr j "kind"
   let exempt := (j.getObjValAs? Bool "exempt").toOption.getD false
   let reqs ← (← getArr j "requires").toList.mapM (fun rs => do (← rs.getArr?).toList.mapM reqOfJson)
-  let (isBool, optFs) ← match kind with
-    | "bool" => pure (true, false)
-    | "optstr" | "optbool" | "str" | "strd" => pure (false, false)
-    | "optfile" => pure (false, true)
+  let (isBool, optFs, ex) ← match kind with
+    | "bool" => pure (true, false, false)
+    | "optstr" | "optbool" | "str" | "strd" => pure (false, false, false)
+    | "ro" => pure (false, false, true)            -- shell.arg(type=str, readonly=True)
+    | "outopt" => pure (false, true, true)         -- shell.outarg(type=File | None, path_template=…)
     | k => throw s!"bad kind {k}"
-  pure { name, isBool, optFileset := optFs, exempt, requires := reqs }
+  pure { name, isBool, optFileset := optFs, exempt := exempt || ex, requires := reqs }
 
 def groupOfJson (j : Json) : Except String (List (Option Rules.Name)) := do
   (← j.getArr?).toList.mapM (fun x => match x with
